@@ -3,6 +3,7 @@ package peersim
 // Application side: caller goroutines, listeners, the yield controller.
 
 import (
+	"fmt"
 	"bytes"
 	"runtime"
 	"sync"
@@ -30,9 +31,17 @@ const (
 	mkGetHeaders
 	mkFeeFilter
 	mkPong
+	mkReject
 )
 
-var mkCmd = [...]string{"ping", "inv", "getdata", "notfound", "getheaders", "feefilter", "pong"}
+var mkCmd = [...]string{"ping", "inv", "getdata", "notfound", "getheaders", "feefilter", "pong", "reject"}
+
+// rejectReason is the reason text of the reject message an application queues
+// for the token (what netsync says about a transaction it does not like, with
+// characters a log must not reproduce).
+func rejectReason(tok *[32]byte) string {
+	return fmt.Sprintf("<i>no&%x\x00\x1b[2J", tok[8:12+int(tok[9]%20)])
+}
 
 // op is one call an application goroutine makes on the peer.
 type op struct {
@@ -86,6 +95,10 @@ func (o *op) message() wire.Message {
 		return m
 	case mkFeeFilter:
 		return wire.NewMsgFeeFilter(int64(leU64(o.token[:8]) >> 1))
+	case mkReject:
+		m := wire.NewMsgReject("tx", wire.RejectCode(0x40+o.token[10]&3), rejectReason(&o.token))
+		m.Hash = h
+		return m
 	}
 	panic("harness: bad message kind")
 }
@@ -119,6 +132,14 @@ func (o *op) expectedPayload(pv uint32) (payload []byte, ok bool) {
 			return le64(leU64(o.token[:8]) >> 1), true
 		}
 		return nil, false
+	case mkReject:
+		if pv < 70002 {
+			return nil, false
+		}
+		reason := rejectReason(&o.token)
+		b := []byte{2, 't', 'x', 0x40 + o.token[10]&3, byte(len(reason))}
+		b = append(b, reason...)
+		return append(b, o.token[:]...), true
 	}
 	return nil, false
 }
